@@ -14,6 +14,13 @@ CLAIMED = {
              ref='4 C12', technique='Coq proof over generated (translated) definitions + exhaustive oracle on the real modules'),
  'C18': dict(text='Proof (Coq), exhaustive over a finite domain: every float64 entry of every shipped .npz is regenerated as an exact dyadic and the kernel computes: equality with the reference package tables (exact), level-1 symmetry (2^-47), level-1 undecimated PR (2^-44), q-shift tree b = reverse of tree a and synthesis = reverse of analysis (exact, band-pass variants included), orthonormality of each tree (2^-44; qshift_32 2^-28), the sign facts the reference branches on; the cache as a state machine gives load-twice equality (C18_load_twice, C18_cache_monotone).',
              ref='4 C18', technique='Coq kernel computation (vm_compute) over tables generated from the .npz bytes + state-machine lemma for the cache'),
+
+ 'C02': dict(text='Proof (Coq): the master reconstruction identity on the line (synthesis of the analysis of ANY extended signal = the signal filtered by the kernel Pk of the four filters; exact reconstruction when Pk = delta), for every length, filter and window over any commutative ring (C02_line_pr, C02_line_pr_exact, C02_kernel_window), stated on the closed forms that C01_level_row/C10_level_nonper_row prove the model computes. Model tied to the code by exact correspondence (operator matrices, unpad rule, level loops); the kernel condition of the real wavelets, the crop to the extent and the multi-level/2-D composition are decided by the round-trip oracle against PyWavelets own error, not yet by a composed theorem. Known finding KF-PER-SHORT.',
+             ref='4 C02', technique='Coq proof (line-level master identity) + exact model/implementation correspondence + round-trip oracle search'),
+ 'C05': dict(text='Proof (Coq): zero-padding adjointness for every L, N, n, filter, signal and cotangent (C05_adjoint_zero_line, Fubini), lifted to the tensor-level model: AFB1D row pass forward/backward are adjoint line by line in zero mode (C05_afb_zero_row; read right-to-left it is SFB1D), the grad-subset rule after the fix (C05_subsets), and a kernel-checked witness that the symmetric-mode backward is not the adjoint (C05_afb_sym_refuted = known finding KF-AFB-BWD-PAD). The backward models of all four Functions are tied to torch.autograd.grad by exact correspondence in all five modes; periodization adjointness, 2-D and multi-level are decided by correspondence + the Jacobian oracle over every grad subset.',
+             ref='4 C05', technique='Coq proof (adjoint by Fubini over a hand-written model) + exact backward-model/autograd correspondence + Jacobian oracle search'),
+ 'C10': dict(text='Proof (Coq): for ANY pair of equal-shape coefficient tensors the model of sfb1d returns PyWavelets idwt closed form in the four non-periodization modes (C10_level_nonper_row, all sizes) and the circular synthesis in periodization under the guard L-2 <= 2n (C10_level_per_row = single fold + roll is circular, via syn_per_fold), with the code formula characterised for every size (C10_level_per_row_code) and a kernel-checked witness below the guard (C10_per_short_refuted = KF-PER-SHORT). Model tied to the code by exact operator-matrix correspondence incl. every None mask of the inverse modules; closed forms tied to pywt.idwt by correspondence B; trim rule, None handling and level loop by correspondence + oracle (KF-NONE-OVERSIZE).',
+             ref='4 C10', technique='Coq proof over a hand-written model + exact model/implementation correspondence + pywt waverec oracle search'),
 }
 REASONS_PENDING = 'check under construction in this session (Coq model and correspondence exist or are being built; not yet registered)'
 
